@@ -15,11 +15,11 @@ import (
 )
 
 type tableInfo struct {
-	g     *ssa.Global
-	elem  types.Type
-	vals  []*big.Int
-	slice bool // []T (false: [N]T)
-	why   string
+	g       *ssa.Global
+	elem    types.Type
+	vals    []*big.Int
+	slice   bool // []T (false: [N]T)
+	why     string
 	n       int  // number of elements
 	runtime bool // elements are not plain integers: facts are evaluated on the initialised variable
 }
